@@ -528,6 +528,19 @@ def _set(ex, st, args, kwargs):
 def _enumerate(ex, st, args, kwargs):
     items = bm.iter_values(ex, st, args[0])
     if items is None:
+        src = st.deref(args[0])
+        if isinstance(src, Opaque) and (src.kind, "iter") in ex.db.opaque_ops:
+            got = [x for x in ex.db.opaque_ops[(src.kind, "iter")](ex, st, src) if not isinstance(x[1], Exc)]
+            if len(got) == 1:
+                st, src = got[0]
+        if isinstance(src, SSeq) and len(args) == 1 and not kwargs:
+            # enumerate over a sequence of unknown length: the sequence of (index, item) pairs
+            ts = ("tuple", "int", src.sort)
+            Z = z3sort(ts)
+            j = z3.Int(fresh_name("enj"))
+            pairs = SSeq(ts, src.n, z3.Lambda([j], Z.constructor(0)(j, src.arr[j])))
+            yield st, pairs
+            return
         raise U("enumerate of symbolic iterable")
     start = args[1] if len(args) > 1 else kwargs.get("start", 0)
     yield st, st.alloc(PList([(start + i, x) for i, x in enumerate(items)]))
